@@ -1,7 +1,7 @@
 //! The family of derived parsers under test.  For every shape: the struct/enum
 //! definitions (expanded by the repository's proc-macro), the conversion of a parsed
 //! value into the harness's value model, and the hand-written declaration of its grammar.
-#![allow(dead_code)]
+#![allow(dead_code, non_snake_case, non_camel_case_types)]
 
 use crate::Kind::{Flag, Opt, Rep, Req};
 use crate::Ty::{Str, Unix, UnixString as UStr, Word};
@@ -57,11 +57,11 @@ fn p(required: bool, ty: Ty, dom: &'static [Tok]) -> PosD {
     PosD { required, ty, dom }
 }
 fn g(opts: Vec<OptD>, pos: Vec<PosD>, sub: Option<SubD>) -> Grammar {
-    Grammar { id: 0, opts, pos, sub }
+    Grammar { id: 0, opts, pos, sub, alts: Vec::new() }
 }
 fn shape(name: &'static str, mut gr: Grammar, parse: fn(&[&'static UnixStr]) -> crate::Outcome, helps: fn() -> Vec<String>) -> Shape {
     number(&mut gr, &mut 0);
-    Shape { name, g: gr, parse, helps }
+    Shape { name, g: gr, parse, helps, key_prefix: "" }
 }
 
 // ---- 1. required option, long name only, &'static UnixStr -------------------
@@ -646,6 +646,7 @@ pub fn all() -> Vec<Shape> {
     let mut v = base();
     v.extend(collisions());
     v.extend(echoes());
+    v.extend(spellings());
     v
 }
 
@@ -1042,5 +1043,244 @@ fn echoes() -> Vec<Shape> {
             || vec![help_of::<EchoOpts>()],
         ),
         shape("EchoPos", g(vec![], vec![p(true, Word, &[X, E, L]), p(false, Word, &[b"12x", b"7"])], None), run::<EchoPos>, || vec![help_of::<EchoPos>()]),
+    ]
+}
+
+// ===========================================================================
+// Spelling of names.  The declared grammar is what the unchanged derive does with a name
+// (checked case by case before writing these declarations), written out BY HAND below:
+//  * a Subcommand variant `PascalCase` is spelled kebab-case with Unicode case mapping:
+//    every upper-case letter (also a non-ASCII one) starts a new `-word` and is lower-cased
+//    with its full mapping (`İ` -> `i` + U+0307);
+//  * an explicit `long = "..."` / `short = "."` literal is lower-cased (Unicode) and `_` becomes `-`.
+// `alts` are near-miss spellings (the tag / the literal as written, ASCII-only case mapping,
+// missing dash): they are fed to sweep 2 as tokens and must NOT be recognised.
+
+fn with_alts(mut gr: Grammar, alts: &[&'static str]) -> Grammar {
+    gr.alts = alts.to_vec();
+    gr
+}
+
+// ---- 26. non-ASCII variant identifiers, non-ASCII option literals --------------
+
+#[derive(ArgParse)]
+#[cli(help_path = "h-cli, uni")]
+struct UniSub {
+    #[cli(long = "größe")]
+    size: Option<i32>,
+    #[cli(subcommand)]
+    cmd: UniCmd,
+}
+#[derive(Subcommand)]
+enum UniCmd {
+    /// leading non-ASCII capital
+    Ändra,
+    /// inner non-ASCII capital
+    VisaÖversikt(ÖversiktArgs),
+    /// non-ASCII lower-case only
+    Straße,
+    İstanbul,
+    ÉÉ,
+}
+#[derive(ArgParse)]
+#[cli(help_path = "h-cli, uni, visa-översikt")]
+struct ÖversiktArgs {
+    #[cli(long = "Ärger_Maß")]
+    a: Vec<&'static str>,
+    #[cli(short = "ö")]
+    o: bool,
+    #[cli(short = "Å", long = "İd")]
+    id: Option<u8>,
+}
+impl ToM for ÖversiktArgs {
+    fn to_m(&self) -> M {
+        M { opts: vec![F::Many(self.a.iter().map(|s| vs(s)).collect()), F::Flag(self.o), F::One(self.id.map(vi))], pos: vec![], sub: None }
+    }
+}
+impl ToM for UniSub {
+    fn to_m(&self) -> M {
+        let sub = match &self.cmd {
+            UniCmd::Ändra => unit(0),
+            UniCmd::VisaÖversikt(x) => with(1, x),
+            UniCmd::Straße => unit(2),
+            UniCmd::İstanbul => unit(3),
+            UniCmd::ÉÉ => unit(4),
+        };
+        M { opts: vec![F::One(self.size.map(vi))], pos: vec![], sub: Some(sub) }
+    }
+}
+
+// ---- 27. non-ASCII field names (positionals are named after the field) ---------
+
+#[derive(ArgParse)]
+#[cli(help_path = "h-cli, fält")]
+struct UniFields {
+    größe: i32,
+    #[cli(long = "maß")]
+    maß: Option<&'static UnixStr>,
+    übrig: Option<String>,
+}
+impl ToM for UniFields {
+    fn to_m(&self) -> M {
+        M { opts: vec![F::One(self.maß.map(vu))], pos: vec![Some(vi(self.größe)), self.übrig.as_deref().map(vs)], sub: None }
+    }
+}
+
+// ---- 28. explicitly written long/short literals of every kind ------------------
+
+#[derive(ArgParse)]
+#[cli(help_path = "h-cli, lits")]
+struct LongLits {
+    #[cli(long = "dry_run")]
+    dry: bool,
+    #[cli(long = "Out_Dir")]
+    out: Option<&'static str>,
+    #[cli(long = "v2")]
+    v2: Option<u8>,
+    #[cli(long = "already-kebab")]
+    k: Option<i32>,
+    #[cli(short = "V", long = "MiXed_case-Name9")]
+    m: bool,
+    #[cli(long = "UPPER")]
+    u: Option<&'static UnixStr>,
+}
+impl ToM for LongLits {
+    fn to_m(&self) -> M {
+        M {
+            opts: vec![F::Flag(self.dry), F::One(self.out.map(vs)), F::One(self.v2.map(vi)), F::One(self.k.map(vi)), F::Flag(self.m), F::One(self.u.map(vu))],
+            pos: vec![],
+            sub: None,
+        }
+    }
+}
+
+// ---- 29. the same kinds inside a subcommand variant, ASCII multi-word tags -----
+
+#[derive(ArgParse)]
+#[cli(help_path = "h-cli, tags")]
+struct TagSub {
+    #[cli(subcommand)]
+    cmd: Option<TagCmd>,
+}
+#[derive(Subcommand)]
+enum TagCmd {
+    X,
+    HTTPGet,
+    Do2Things(Do2Args),
+}
+#[derive(ArgParse)]
+#[cli(help_path = "h-cli, tags, do2-things")]
+struct Do2Args {
+    #[cli(long = "Snake_Case_Req")]
+    r: i32,
+    #[cli(short = "Q", long = "q_q")]
+    q: bool,
+}
+impl ToM for Do2Args {
+    fn to_m(&self) -> M {
+        M { opts: vec![one(vi(self.r)), F::Flag(self.q)], pos: vec![], sub: None }
+    }
+}
+impl ToM for TagSub {
+    fn to_m(&self) -> M {
+        let sub: SubM = self.cmd.as_ref().map(|c| match c {
+            TagCmd::X => unit(0),
+            TagCmd::HTTPGet => unit(1),
+            TagCmd::Do2Things(x) => with(2, x),
+        });
+        M { opts: vec![], pos: vec![], sub }
+    }
+}
+
+fn spellings() -> Vec<Shape> {
+    vec![
+        shape(
+            "UniSub",
+            with_alts(
+                g(
+                    vec![o(Some("--größe"), None, Opt, I32, &[b"7", b"-5"])],
+                    vec![],
+                    Some(SubD {
+                        required: true,
+                        cmds: vec![
+                            ("ändra", None),
+                            (
+                                "visa-översikt",
+                                Some(with_alts(
+                                    g(
+                                        vec![
+                                            o(Some("--ärger-maß"), None, Rep, Str, &[X, ACC]),
+                                            o(None, Some("-ö"), Flag, Str, &[]),
+                                            o(Some("--i\u{307}d"), Some("-å"), Opt, U8, &[b"7"]),
+                                        ],
+                                        vec![],
+                                        None,
+                                    ),
+                                    &["--Ärger_Maß", "--ärger_maß", "--Ärger-Maß", "-Ö", "-Å", "--İd", "--id"],
+                                )),
+                            ),
+                            ("straße", None),
+                            ("i\u{307}stanbul", None),
+                            ("é-é", None),
+                        ],
+                    }),
+                ),
+                &["Ändra", "VisaÖversikt", "visaÖversikt", "visaöversikt", "visa-Översikt", "Straße", "strasse", "İstanbul", "istanbul", "ÉÉ", "éé", "É-É", "--Größe", "--GRÖSSE"],
+            ),
+            run::<UniSub>,
+            || vec![help_of::<UniSub>(), help_of::<ÖversiktArgs>()],
+        ),
+        shape(
+            "UniFields",
+            g(vec![o(Some("--maß"), None, Opt, Unix, &[X, NU])], vec![p(true, I32, &[b"7", b"0"]), p(false, Str, &[X, ACC])], None),
+            run::<UniFields>,
+            || vec![help_of::<UniFields>()],
+        ),
+        shape(
+            "LongLits",
+            with_alts(
+                g(
+                    vec![
+                        o(Some("--dry-run"), None, Flag, Str, &[]),
+                        o(Some("--out-dir"), None, Opt, Str, &[X, b"--Out_Dir"]),
+                        o(Some("--v2"), None, Opt, U8, &[b"7"]),
+                        o(Some("--already-kebab"), None, Opt, I32, &[b"7", b"-5"]),
+                        o(Some("--mixed-case-name9"), Some("-v"), Flag, Str, &[]),
+                        o(Some("--upper"), None, Opt, Unix, &[X, NU]),
+                    ],
+                    vec![],
+                    None,
+                ),
+                &["--dry_run", "--Out_Dir", "--out_dir", "--Out-Dir", "--V2", "--already_kebab", "-V", "--MiXed_case-Name9", "--mixed_case-name9", "--UPPER"],
+            ),
+            run::<LongLits>,
+            || vec![help_of::<LongLits>()],
+        ),
+        shape(
+            "TagSub",
+            with_alts(
+                g(
+                    vec![],
+                    vec![],
+                    Some(SubD {
+                        required: false,
+                        cmds: vec![
+                            ("x", None),
+                            ("h-t-t-p-get", None),
+                            (
+                                "do2-things",
+                                Some(with_alts(
+                                    g(vec![o(Some("--snake-case-req"), None, Req, I32, &[b"7", b"-5"]), o(Some("--q-q"), Some("-q"), Flag, Str, &[])], vec![], None),
+                                    &["--Snake_Case_Req", "--snake_case_req", "-Q", "--q_q"],
+                                )),
+                            ),
+                        ],
+                    }),
+                ),
+                &["X", "HTTPGet", "http-get", "httpget", "Do2Things", "do-2-things", "do2things"],
+            ),
+            run::<TagSub>,
+            || vec![help_of::<TagSub>(), help_of::<Do2Args>()],
+        ),
     ]
 }
